@@ -121,8 +121,8 @@ def in_scalar_subquery(path):
 
 
 def finding_territory(cl, s):
-    """a single rewrite that sits where one of the structural finding classes lives (gap at a dot: D30/D31/D32; inside one of
-    several identical query texts: D33; function-call gap in a scalar subquery of a select item: D34).  Such rewrites are
+    """a single rewrite that sits where one of the structural finding classes lives (gap at a dot: D40/D41/D42; inside one of
+    several identical query texts: D43; function-call gap in a scalar subquery of a select item: D44).  Such rewrites are
     exercised one at a time; the larger rewrite sets are drawn from the others, so that a set is not voided — and its
     minimisation not made expensive — by a member whose effect is already known."""
     if s[0] == "semi":
@@ -618,14 +618,14 @@ def direct_segments(chk, drv, inputs):
                     return sch + "." + esc(parts[1])
                 if table != printed(a["table_parts"]):
                     if table == printed(a["table_parts_raw"]):
-                        pre_repair += 1       # the code before the repair D30 (the model carries both)
+                        pre_repair += 1       # the code before the repair D40 (the model carries both)
                     else:
                         ok = False
             if not ok:
                 bad += 1
                 if len(chk.stale) < 10:
                     chk.stale.append({"kind": "segments", "request": rq, "impl": [e, neg, table], "model": a})
-    return {"trees": n_trees, "nodes_compared": len(reqs), "table_references": tables, "table_names_as_before_repair_D30": pre_repair,
+    return {"trees": n_trees, "nodes_compared": len(reqs), "table_references": tables, "table_names_as_before_repair_D40": pre_repair,
             "disagreements": bad}
 
 
@@ -772,13 +772,13 @@ def run(chk):
     if worker_errors > max(3, len(jobs) // 50):
         raise Infra(f"{worker_errors} of {len(jobs)} jobs failed inside the harness")
     seg = direct_segments(chk, drv, inputs)
-    if seg["table_names_as_before_repair_D30"]:
+    if seg["table_names_as_before_repair_D40"]:
         # `SqlFluffTable.of` still counts positions over the raw child list on this tree
-        if chk.finding("D30"):
-            chk.known("D30", seg["table_names_as_before_repair_D30"])
+        if chk.finding("D40"):
+            chk.known("D40", seg["table_names_as_before_repair_D40"])
         else:
             chk.stale.append({"kind": "segments", "why": "SqlFluffTable.of reads table names positionally over raw segments "
-                              "(the model describes the repaired code D30)", "cases": seg["table_names_as_before_repair_D30"]})
+                              "(the model describes the repaired code D40)", "cases": seg["table_names_as_before_repair_D40"]})
     esc = direct_escape(chk, drv)
     spl = direct_split(chk, drv)
     sqlimpl.close_pool()
